@@ -13,6 +13,13 @@ func (t *WeightedMerkleTrie) GetBlockProof(block uint64) (key, proof []byte, err
 	if block > t.root.Weight() {
 		return nil, nil, ErrWeightNotInRange
 	}
+	if t.db != nil {
+		// serialising the nodes on the way hashes them, which marks them clean although they are not saved
+		// yet: put the marks back afterwards, or the next Commit would take them for saved and write nothing
+		if unsaved := dirtyNodes(t.root, nil); len(unsaved) > 0 {
+			defer markDirty(unsaved)
+		}
+	}
 	persistTrie := &PersistTrie{}
 	key, err = t.getBlockProof(t.root, block, nil, persistTrie)
 	if err != nil {
@@ -27,6 +34,49 @@ func (t *WeightedMerkleTrie) GetBlockProof(block uint64) (key, proof []byte, err
 		return nil, nil, err
 	}
 	return
+}
+
+// dirtyNodes appends the in-memory nodes below n that are not saved yet (a changed node marks its whole path, so a
+// clean node has no dirty descendants)
+func dirtyNodes(n Node, out []Node) []Node {
+	switch x := n.(type) {
+	case *routingNode:
+		if !x.dirty {
+			return out
+		}
+		out = append(out, x)
+		for _, c := range x.Children {
+			if c != nil {
+				out = dirtyNodes(c, out)
+			}
+		}
+	case *shortNode:
+		if !x.dirty {
+			return out
+		}
+		out = append(out, x)
+		if x.value != nil {
+			out = dirtyNodes(x.value, out)
+		}
+	case *valueNode:
+		if x.dirty {
+			out = append(out, x)
+		}
+	}
+	return out
+}
+
+func markDirty(nodes []Node) {
+	for _, n := range nodes {
+		switch x := n.(type) {
+		case *routingNode:
+			x.dirty = true
+		case *shortNode:
+			x.dirty = true
+		case *valueNode:
+			x.dirty = true
+		}
+	}
 }
 
 func (t *WeightedMerkleTrie) getBlockProof(node Node, block uint64, prefix []byte, persistTrie *PersistTrie) (key []byte, err error) {
